@@ -877,12 +877,12 @@ def compile_comprehension(compiler, expr, root, parts, final):
             if p.tag in ("if", "do"):
                 tag_value = compiler.compile(p.value)
             else:
-                tag_value = [
-                    compiler._storeize(p.value[0], compiler.compile(p.value[0])),
-                    compiler.compile(p.value[1]),
-                ]
+                seen_start = None if is_for else len(scope.seen)
+                target = compiler._storeize(p.value[0], compiler.compile(p.value[0]))
+                seen_end = None if is_for else len(scope.seen)
+                tag_value = [target, compiler.compile(p.value[1])]
                 if not is_for:
-                    scope.iterator(tag_value[0])
+                    scope.iterator(target, seen_start, seen_end)
             new_parts.append(Tag(p.tag, tag_value))
         parts = new_parts
 
